@@ -27,6 +27,18 @@ LEVEL_TEXT = ('Static analysis of the current source of /repo (nothing is execut
               'ordering on every path, effect discipline, index/type discipline) are visible in the shape of the code.')
 
 
+def borrowed_text(p):
+    from pydlsa.cli import BORROWS
+    b = BORROWS.get(p)
+    if not b:
+        return ''
+    parts = []
+    for owner, only in b:
+        parts.append('%s (%s)' % (owner, 'all its rules' if only is None else ', '.join(sorted(r.split('.', 1)[1] for r in only))))
+    return (' Also evaluated under this property, with their own rule ids: the rules of the helper functions on its code path, owned by '
+            + '; '.join(parts) + '.')
+
+
 def main():
     checks = []
     na = []
@@ -50,7 +62,7 @@ def main():
             'engine': 'pydlsa',
             'level_claimed': {
                 'category': 'other',
-                'text': LEVEL_TEXT + ' Decided here: ' + m.get('claim', m['explanation'].split(' NOT decided')[0]),
+                'text': LEVEL_TEXT + ' Decided here: ' + m.get('claim', m['explanation'].split(' NOT decided')[0]) + borrowed_text(p),
                 'design_ref': 'DESIGN.md section 4, %s' % p,
             },
             'level_note': 'Trusted base: CPython ast; frozen facts about the numpy/scipy/astropy entry points named by the '
